@@ -41,8 +41,14 @@ def run(p: Program, rep: Report, tier: str) -> None:
             continue
         v = pa.value
         SR = ("param", "stat_result")
-        has_m = contains(v, ("attr", SR, "st_mtime")) or contains(v, ("attr", SR, "st_mtime_ns"))
-        has_s = contains(v, ("attr", SR, "st_size"))
+        # what the returned value is computed from: its own term, plus whatever was fed into the object it is derived from
+        # by method calls on the way (`h = sha1(); h.update(<text>); return h.hexdigest()`)
+        fed = [v]
+        for e in pa.events:
+            if e.kind == "call" and e.a[0] == "attr" and e.a[2] in ("update", "write", "append", "extend") and contains(v, e.a[1]):
+                fed += list(e.b or ())
+        has_m = any(contains(x, ("attr", SR, "st_mtime")) or contains(x, ("attr", SR, "st_mtime_ns")) for x in fed)
+        has_s = any(contains(x, ("attr", SR, "st_size")) for x in fed)
         if has_m and has_s:
             rep.ok("R14.1", f"ETag depends on st_mtime and st_size: {show(v)[:90]}")
         else:
